@@ -21,12 +21,12 @@ func init() { register(c08{}) }
 
 func (c08) ID() string { return "C08" }
 func (c08) Rule() string {
-	return "regions of 1..5 segments (lengths 1..6, gaps>=1, forward, complemented, and mixed-strand lists) taken from Location.Region() on a 40..60-residue sequence (unique complement-invariant ids, and random IUPAC letters so the complement is visible) x all five modifier forms x offsets in [-len-3,len+3]: exhaustive for 1..3 segments on a fixed layout, seeded for 1..5. Oracle (spliced-coordinate model M3): Resize(m).Locate(seq).Bytes() == window [lo,hi) of the outward-extended spliced sequence; zero-length results compared by Head() (either side accepted at a junction); windows leaving the sequence are skipped; AsModifier(m.String())==m. Locators assembled from known parts (modifier | point | range | complement(range) | selector by key and /label regexp, each optionally @modifier, and bare @modifier): the regions returned, compared through extraction in table order, must be the model's. non-trivial: >=2 segments or a non-zero offset; distinct: canonical case text. CLI layer: gts extract [-v] <locator> (one or two locators, with modifiers) of the real binary (--no-cache) on generated records and streams: one record per distinct located region with the residues the spliced-coordinate model gives. Selectors whose regular expression holds = (/function=aa=Sec, =v, k=v=w) on tables whose values hold = themselves."
+	return "regions of 1..5 segments (lengths 1..6, gaps>=1, forward, complemented, and mixed-strand lists) taken from Location.Region() on a 40..60-residue sequence (unique complement-invariant ids, and random IUPAC letters so the complement is visible) x all five modifier forms x offsets in [-len-3,len+3]: exhaustive for 1..3 segments on a fixed layout, seeded for 1..5. Oracle (spliced-coordinate model M3): Resize(m).Locate(seq).Bytes() == window [lo,hi) of the outward-extended spliced sequence; zero-length results compared by Head() (either side accepted at a junction); windows leaving the sequence are skipped; AsModifier(m.String())==m. Locators assembled from known parts (modifier | point | range | complement(range) | selector by key and /label regexp, each optionally @modifier, and bare @modifier): the regions returned, compared through extraction in table order, must be the model's. non-trivial: >=2 segments or a non-zero offset; distinct: canonical case text. CLI layer: gts extract [-v] <locator> (one or two locators, with modifiers) of the real binary (--no-cache) on generated records and streams: one record per distinct located region with the residues the spliced-coordinate model gives. Selectors whose regular expression holds = (/function=aa=Sec, =v, k=v=w) on tables whose values hold = themselves. Regions whose last part turns around at the coordinate where the previous one ends (opposite strands meeting in one coordinate); a full-length record emitted by gts extract must be the extraction of the located region."
 }
 func (c08) RequiredBuckets(tier string) []string {
 	out := []string{"segments:1", "segments:2", "segments:3", "segments:4", "segments:5", "strand:fwd", "strand:rev", "strand:mixed",
 		"mod:^", "mod:$", "mod:^$", "mod:^^", "mod:$$", "window:inside", "window:extends-5'", "window:extends-3'", "window:zero-length", "window:crosses-junction",
-		"modifier-roundtrip", "locator:modifier", "locator:point", "locator:range", "locator:complement", "locator:selector", "locator:selector@mod", "locator:@mod", "locator:no-match", "locator:table-not-sorted", "locator:selector-regexp-holds-an-equals-sign"}
+		"modifier-roundtrip", "locator:modifier", "locator:point", "locator:range", "locator:complement", "locator:selector", "locator:selector@mod", "locator:@mod", "locator:no-match", "locator:table-not-sorted", "locator:selector-regexp-holds-an-equals-sign", "region:strand-turns-at-a-shared-coordinate"}
 	out = append(out, "cmd:extract", "cmd:extract -v", "extract:two-locators", "stream:records-independent", "cache-on:after-sibling")
 	return out
 }
@@ -367,6 +367,11 @@ func (m c08) Run(c *fw.Ctx) {
 		{gts.Range(10, 13), gts.Range(15, 17), gts.Range(20, 24)},
 		{gts.Range(10, 11), gts.Range(14, 18), gts.Point(21)},
 		{gts.Range(9, 15), gts.Range(17, 18), gts.Range(20, 22)},
+		// parts on opposite strands that meet in one coordinate (the reading
+		// turns around there): nothing is merged.
+		{gts.Range(6, 12).Complement(), gts.Range(6, 15)},
+		{gts.Range(10, 18), gts.Range(14, 18).Complement()},
+		{gts.Range(8, 11), gts.Range(14, 20).Complement(), gts.Range(14, 17)},
 	}
 	for _, parts := range layouts {
 		base := gts.Join(parts...)
@@ -423,6 +428,20 @@ func (m c08) Run(c *fw.Ctx) {
 			}
 			parts = append(parts, l)
 			lo += ln + 1 + r.Intn(3)
+		}
+		if r.Intn(8) == 0 && len(parts) > 0 {
+			// a last part that turns around where the one before it ends.
+			if pp := model.Parts(parts[len(parts)-1]); len(pp) == 1 && pp[0].Hi-pp[0].Lo >= 2 {
+				a, b := pp[0].Lo, pp[0].Hi
+				var turn gts.Location = gts.Range(a+r.Intn(b-a-1), b)
+				if pp[0].Rev {
+					turn = gts.Range(a, a+1+r.Intn(b-a-1))
+				} else {
+					turn = turn.Complement()
+				}
+				parts = append(parts, turn)
+				c.Bucket("region:strand-turns-at-a-shared-coordinate")
+			}
 		}
 		var loc gts.Location = gts.Join(parts...)
 		if r.Intn(2) == 0 {
